@@ -614,3 +614,63 @@ func Forbid(edges []IfEdge) func(*ssa.BasicBlock, int) bool {
 		return true
 	}
 }
+
+// SelectCaseEdges returns the If edges that enter the body of a select case whose channel satisfies pred
+// (select dispatch is an if-chain on the select's index result).
+func SelectCaseEdges(fn *ssa.Function, pred func(ch ssa.Value, dir types.ChanDir) bool) []IfEdge {
+	var out []IfEdge
+	Instrs(fn, func(i ssa.Instruction) {
+		sel, ok := i.(*ssa.Select)
+		if !ok {
+			return
+		}
+		var idx ssa.Value
+		for _, ref := range *sel.Referrers() {
+			if ex, ok := ref.(*ssa.Extract); ok && ex.Index == 0 {
+				idx = ex
+			}
+		}
+		if idx == nil {
+			return
+		}
+		for k, st := range sel.States {
+			if !pred(st.Chan, st.Dir) {
+				continue
+			}
+			kk := int64(k)
+			out = append(out, IfEdgesWhere(fn, func(v ssa.Value) bool {
+				b, ok := v.(*ssa.BinOp)
+				if !ok || b.Op != token.EQL || b.X != idx {
+					return false
+				}
+				c, ok := ConstInt(b.Y)
+				return ok && c == kk
+			}, true)...)
+		}
+	})
+	return out
+}
+
+// IsCtxDone recognises `ctx.Done()` channel values.
+func IsCtxDone(ch ssa.Value) bool {
+	call, ok := ch.(*ssa.Call)
+	if !ok {
+		return false
+	}
+	return CallName(call) == "(context.Context).Done"
+}
+
+// CtxDoneEdges: edges entering `case <-ctx.Done():` bodies.
+func CtxDoneEdges(fn *ssa.Function) []IfEdge {
+	return SelectCaseEdges(fn, func(ch ssa.Value, dir types.ChanDir) bool { return dir == types.RecvOnly && IsCtxDone(ch) })
+}
+
+// TrueEdgesOf returns the edges on which bool value v is true (want) / false.
+func BoolEdges(fn *ssa.Function, v ssa.Value, want bool) []IfEdge {
+	return IfEdgesWhere(fn, func(x ssa.Value) bool { return x == v || ResolveLoad(x) == v }, want)
+}
+
+// ReachableWithout reports a witness when target is reachable from `from` without using the forbidden edges.
+func ReachableWithout(from Point, forbidden []IfEdge, target func(ssa.Instruction) bool) *Found {
+	return (&Walk{EdgeOK: Forbid(forbidden), Target: target}).From(from, nil)
+}
